@@ -114,6 +114,19 @@ def c19_3(ctx):
             fk_ = {call_name(x) for x in ast.walk(k) if isinstance(x, ast.Call) and call_name(x) in ('_item_by_i', '_item_by_key')}
             if fa != fk_ or not fa:
                 ctx.fail(fw, c, 'positional and keyword companions are not matched by the same rule: %s vs %s' % (sorted(fa), sorted(fk_)))
+            # SCOPE: the selector handed to _item_by_key/_item_by_i inside the companion comprehensions must be the variable of the ENCLOSING
+            # iteration over the looped argument; a comprehension that binds the same name itself (for k, v in kwargs.items()) shadows it
+            sel = {U(x.args[1]) for y in (a, k) for x in ast.walk(y) if isinstance(x, ast.Call) and call_name(x) in ('_item_by_i', '_item_by_key') and len(x.args) >= 2}
+            for y in (a, k):
+                for comp in ast.walk(y):
+                    if isinstance(comp, (ast.DictComp, ast.ListComp, ast.GeneratorExp, ast.SetComp)):
+                        own = {n.id for g in comp.generators for n in ast.walk(g.target) if isinstance(n, ast.Name)}
+                        for x in ast.walk(comp):
+                            if isinstance(x, ast.Call) and call_name(x) in ('_item_by_i', '_item_by_key') and len(x.args) >= 2 and isinstance(x.args[1], ast.Name) and x.args[1].id in own:
+                                ctx.fail(fw, c, 'inside `%s` the selector `%s` is the comprehension\'s own variable, not the key/position of the looped argument (shadowed name): companions are matched against the wrong key' % (U(comp)[:70], x.args[1].id),
+                                         witness="loop(dict)(f)({'x': 1, 'y': 2}, b={'x': 10, 'y': 20})")
+            if len(sel) > 1:
+                ctx.fail(fw, c, 'positional and keyword companions are selected with different keys: %s' % sorted(sel))
 
 
 PUBLIC = {'_txt': [('lower', '_lower'), ('upper', '_upper'), ('strip', '_strip'), ('proper', '_proper'), ('replace', '_replace'), ('split', '_split'), ('f12', '_f12'), ('capitalize', '_capitalize')],
